@@ -637,10 +637,14 @@ func layerOpts(l Layer) []estargz.Option {
 	return o
 }
 
+// tmpBase: where the per-case content stores are created; the run's output directory, which the driver removes,
+// so that a run aborted by the race detector (halt_on_error) does not leave stores behind in /tmp
+var tmpBase string
+
 func exec(c Case) Result {
 	var res Result
 	ctx := context.Background()
-	dir, err := os.MkdirTemp("", "c19-")
+	dir, err := os.MkdirTemp(tmpBase, "c19-")
 	if err != nil {
 		panic(err)
 	}
@@ -1227,6 +1231,7 @@ func main() {
 	os.Setenv("CONTAINERD_DISABLE_PIGZ", "1")
 	os.Setenv("CONTAINERD_DISABLE_IGZIP", "1")
 	ctx := hx.Start()
+	tmpBase = ctx.Out
 	if pf := os.Getenv("C19_PROF"); pf != "" {
 		f, _ := os.Create(pf)
 		_ = pprof.StartCPUProfile(f)
